@@ -3,6 +3,7 @@ package zzbql
 import (
 	"fmt"
 	"strconv"
+	"strings"
 
 	verif "github.com/google/badwolf/internal/zzverif"
 	"github.com/google/badwolf/bql/grammar"
@@ -205,6 +206,48 @@ var c18Corpus = []string{
 	`construct { ?s "r"@[] ?o } into ?h from ?g where { ?s "p"@[] ?o } ;`,
 	`deconstruct { ?s "r"@[] ?o } in ?h from ?g where { ?s "p"@[] ?o } ;`,
 	`show graphs ;`,
+	`select ?s, ?o from ?g where { ?s "p"@[] ?o } order by ?s asc, ?o desc ;`,
+	`select ?o, ?s from ?g where { ?s "p"@[] ?o } order by ?o asc, ?s desc between 2006-01-02T15:04:05Z, 2007-01-02T15:04:05Z ;`,
+	`select ?s, ?o from ?g where { ?s "p"@[] ?o } order by ?o, ?s after 2006-01-02T15:04:05Z ;`,
+	`select ?s from ?g where { ?s "p"@[,] as ?x ?o } ;`,
+	`select ?s, ?p from ?g where { ?s ?p /u<a> } having (?s = /u<a>) or (?s = /u<b>) ;`,
+}
+
+// C18 (c'): no state between statements: every ordered pair of corpus
+// statements through one parser.
+func HarnessC18NoStatePairs() {
+	i := verif.Choice("first", len(c18Corpus))
+	j := verif.Choice("second", len(c18Corpus))
+	shared, err := grammar.NewParser(grammar.SemanticBQL())
+	verif.Assume(err == nil)
+	var st2 *semantic.Statement
+	var err1, err2 error
+	if !noPanic("C18/nostate/no-panic", func() {
+		err1 = shared.Parse(grammar.NewLLk(c18Corpus[i], 1), &semantic.Statement{})
+		st2 = &semantic.Statement{}
+		err2 = shared.Parse(grammar.NewLLk(c18Corpus[j], 1), st2)
+	}) {
+		return
+	}
+	fresh, ferr := parseText(grammar.SemanticBQL(), c18Corpus[j])
+	verif.Reach("parsed")
+	hasBound := func(q string) bool {
+		return strings.Contains(q, " before ") || strings.Contains(q, " after ") || strings.Contains(q, " between ")
+	}
+	switch {
+	case err1 != nil:
+		verif.Class("after-a-rejected-statement")
+	case strings.Contains(c18Corpus[i], " between ") && hasBound(c18Corpus[j]):
+		// known: collectGlobalBounds keeps its last token after a BETWEEN bound
+		verif.Class("global-time-bound-after-an-accepted-BETWEEN")
+	default:
+		verif.Class("after-an-accepted-statement")
+	}
+	verif.Assert((err2 == nil) == (ferr == nil), "C18/nostate/same-verdict")
+	if err2 == nil && ferr == nil {
+		verif.Assert(fingerprint(st2) == fingerprint(fresh), "C18/nostate/same-meaning")
+	}
+	verif.Class("")
 }
 
 // C18 (c): no state between statements: a parser built once from
